@@ -39,6 +39,11 @@ def case_strategy(draw, ctx):
     if lossy and not any(("sigE" in o["material"] or "sigH" in o["material"]) for o in spec["objects"]):
         spec["background"]["sigE"] = 2e4
     T = spec["steps"]
+    if draw(st.integers(0, 3)) > 0:  # most cases: make sure light reaches a detector while it records
+        spec["sources"][0]["switch"] = {}
+        if spec["sources"][0]["profile"]["kind"] == "custom":
+            spec["sources"][0]["profile"] = {"kind": "cw"}
+        spec["detectors"][0]["switch"] = {} if draw(st.booleans()) else {"start_step": T // 2}
     is_lossy = "sigE" in spec["background"] or any(("sigE" in o["material"] or "sigH" in o["material"]) for o in spec["objects"])
     ck = T - 1 if is_lossy else draw(st.sampled_from([0, 0, 1, 2, T - 1, draw(st.integers(0, T - 1))]))
     return {"scene": spec, "rev_ckpt": ck, "ad_ckpt": draw(st.integers(1, T)), "w_seed": draw(st.integers(0, 2**31 - 1)),
@@ -103,16 +108,19 @@ def body(ctx, case):
     g_rv = ge_rv[:, interior]
     gmax = float(np.abs(g_ad).max()) if g_ad.size else 0.0
     nz = int((np.abs(g_ad) > 1e-12 * max(gmax, 1e-300)).sum())
-    ctx.nontrivial(gmax > 0 and nz >= 10)
-    if gmax == 0 and float(np.abs(g_rv).max() if g_rv.size else 0.0) == 0:
+    ctx.nontrivial(gmax > 1e-30 and nz >= 10)
+    # an identically zero exact gradient (detector never sees a field) vs. 1e-54 underflow residue of the reverse
+    # sweep is not a disagreement: gradients below 1e-30 absolute are treated as zero on both sides
+    FLOOR = 1e-30
+    if gmax < FLOOR and float(np.abs(g_rv).max() if g_rv.size else 0.0) < FLOOR:
         ctx.classify("zero-gradient")
         return
-    ctx.close(g_rv, g_ad, scale=max(gmax, float(np.abs(g_rv).max())), tol=1e-9,
+    ctx.close(g_rv, g_ad, scale=max(gmax, float(np.abs(g_rv).max()), FLOOR), tol=1e-9,
               msg=f"d loss / d inv_permittivity outside PML: reversible(ckpt={case['rev_ckpt']}) != checkpointed autodiff",
               metric="grad_eps_err")
     if gm_ad is not None:
         a, r = gm_ad[:, interior], gm_rv[:, interior]
-        sc = max(float(np.abs(a).max()), float(np.abs(r).max()), 1e-300)
+        sc = max(float(np.abs(a).max()), float(np.abs(r).max()), 1e-30)
         ctx.close(r, a, scale=sc, tol=1e-9,
                   msg=f"d loss / d inv_permeability outside PML: reversible(ckpt={case['rev_ckpt']}) != checkpointed autodiff",
                   metric="grad_mu_err")
